@@ -719,3 +719,13 @@ V("fix dc3bf81 undone: first hash entry of a missing path dereferenced without N
 
 """, "\n", "R17.11")
 V("fix 534564c undone: an empty <pattern> is read back as None", ["C12", "C10"], HX, 'existing_ignore_patterns.append(element.text or "")', "existing_ignore_patterns.append(element.text)", "R12.6")
+V("fix 82facee undone: a removed nested history is reported missing although the patterns ignore it", "C12", C, """                nested_root = os.path.dirname(referenced_asc_folder)
+                # a nested history that the ignore patterns exclude is not missing
+                if not ignore_spec.get_path_spec().match_file(os.path.relpath(nested_root, root_path)):
+                    missing_asc_mhl_folder.add(nested_root)
+""", """                missing_asc_mhl_folder.add(os.path.dirname(referenced_asc_folder))
+""", "R12.15")
+V("fix 3574d6b undone: no packing list for a history without file records", "C18", C, """    # the packing list is written even if the history holds no file record at all (only empty folders)
+    packing_list = session.new_hash_lists[collection_history]
+
+""", "", "R18.10")
